@@ -1,1 +1,2 @@
-import Proofs
+import Props.C01
+import Props.C02
